@@ -69,6 +69,28 @@ def _m_exists(interp, args, kwargs):
 M.model(exists, _m_exists)
 
 
+def is_empty_dir(p):
+    """an existing directory with nothing in it"""
+    return os.path.isdir(str(p)) and not os.listdir(str(p))
+
+
+def _m_is_empty_dir(interp, args, kwargs):
+    s = fsmodel.path_str(interp, args[0])
+    f = fsmodel.fs(interp)
+    r = interp.truth(fsmodel.is_known_dir(interp, s))
+    for e in f['dirs'] + f['files']:
+        if r is False:
+            return False
+        nb = interp.not_(fsmodel._strictly_below(interp, e, s))
+        if nb is True:
+            continue
+        r = nb if r is True else fsmodel.wrap(fsmodel.z3.And(fsmodel.to_z3(r), fsmodel.to_z3(nb)))
+    return r
+
+
+M.model(is_empty_dir, _m_is_empty_dir)
+
+
 def below(p, d):
     """p lies strictly below the directory d (every absolute path but '/' lies below '/', every relative one
     but '.' below '.')"""
@@ -168,8 +190,7 @@ M.contract(P_SDS + ':construct_at', params=dict(directory_root=Str),
            returns=Dependent(lambda interp, name, env: interp.call(SandboxDs, [env['directory_root']], {})),
            setup=_declare_existing_dir('directory_root'),
            # a fresh sandbox root: an existing directory with nothing in it
-           requires=lambda directory_root: is_dir(directory_root)
-                                           and not any(exists(d) for d in layout_dirs(directory_root)),
+           requires=lambda directory_root: is_empty_dir(directory_root),
            event='construct_at',
            ensures={
                'creates-exactly-the-documented-directories-parents-first': (
@@ -239,16 +260,18 @@ def _m_executor_execute(interp, args, kwargs):
     of that is needed here."""
     from pyvc.interp import PyRaise, ArbitraryException
     st = interp.st
-    st.emit('partial-executor', tuple(args))
+    bound = dict(configuration=args[0], test_case=args[1])
+    st.emit('partial-executor', bound)      # same events as a contract with event='partial-executor' emits
     elsewhere = Str.make(interp, 'cwd-after-executor')
     fsmodel.declare_dir(interp, elsewhere)
     st.ghost['cwd'] = elsewhere
     k = st.choose(2)
     if k == 1:
-        st.emit('partial-executor:raised')
-        raise PyRaise(ArbitraryException('anything the executor lets escape'))
+        exc = ArbitraryException('anything the executor lets escape')
+        st.emit('partial-executor:raised', bound, exc)
+        raise PyRaise(exc)
     r = PARTIAL_RESULT.make(interp, 'partial_result')
-    st.ghost['executor-result'] = r
+    st.emit('partial-executor:returned', bound, r)
     return r
 
 
@@ -274,7 +297,8 @@ M.contract(P_EXE + ':execute',
                                         if result.has_sds and not is_keep_sandbox else []),
                'removal-comes-after-leaving-the-sandbox': lambda trace:
                [e[0] for e in events(trace, 'chdir', 'rmtree')][:1] != ['rmtree'],
-               'result-is-the-executors': lambda result, ghost: result is ghost['executor-result'],
+               'result-is-the-executors': lambda result, trace:
+               result is events(trace, 'partial-executor:returned')[0][2],
                'executor-runs-once': lambda trace: len(events(trace, 'partial-executor')) == 1,
            },
            raises={Exception: {'ensures': lambda old, trace: os.getcwd() == old and rmtree_events(trace) == []
